@@ -539,7 +539,7 @@ func (q *seqGen) random(total int) {
 
 func (g *gen) runSeqs() {
 	r, rng := g.r, g.rng.Fork()
-	nseq := r.Scale(160, 1500)
+	nseq := r.Scale(220, 2000)
 	for n := 0; n < nseq; n++ {
 		q := &seqGen{g: g, rng: rng, cl: seqClients[n%len(seqClients)], theme: (n / len(seqClients)) % 4}
 		if n%3 == 0 {
